@@ -142,7 +142,15 @@ func verifRewriteCheck(src []byte) {
 
 // H_c20_short: every byte string of length 0..L that is a valid file.
 func H_c20_short() {
-	q := nondet_choice("quadrant", 4)
+	q := nondet_choice("quadrant", 5)
+	if q == 4 {
+		// the one 3-byte input the quick tier looks at as well: a file that is just the UTF-8
+		// byte-order mark (the recorded known finding; the thorough tier meets it among all
+		// 3-byte inputs)
+		verifRewriteCheck([]byte{0xEF, 0xBB, 0xBF})
+		verif_witness()
+		return
+	}
 	L := nondet_choice("L", verif_bound("rewrite-maxL", 2, 3)+1)
 	src := nondet_bytes("src", L)
 	if L == 0 {
